@@ -8,15 +8,23 @@ RULE = ("spec/Tabulated.tla holds the textbook (V,E,F) of the 5 Platonic, 13 Arc
         "of every family and of the science.1220869 repository is built and compared with the table, iteration order and "
         "identity with get_shape (also after the caller modified a previously yielded shape), unknown names, cross-references "
         "to the named families, and the metric predicates (unit volume, equal edges, regular faces, insphere) on the "
-        "implementation's vertices; exhaustive over all 290 entries")
+        "implementation's vertices; exhaustive over all 290 entries; the Get/Mutate histories of spec/Factory.tla are replayed "
+        "against get_shape of every tabulated family and the repository")
 
 
 def run(ctx):
     te.run(ctx)
+    from .. import factory_eval
+    TAB = ["PlatonicFamily", "ArchimedeanFamily", "CatalanFamily", "JohnsonFamily", "PrismAntiprismFamily", "PyramidDipyramidFamily",
+           "DOI science.1220869"]
+    ctx.extra["factory_histories_replayed"] = factory_eval.run(ctx, TAB)
     return ctx.finish(rule=RULE, assumptions=[
         "metric predicates are float relations (tabulated coordinates are irrational); Johnson solids are checked for regular "
         "faces / equal edges / distinct names, not against per-solid textbook counts"])
 
 
 def replay(rec):
+    if "job" in rec.get("detail", {}):
+        from .. import factory_eval
+        return [f"{s['cls']}.{s['obs']}: {s['msg']}" for s, _ in factory_eval.eval_history(rec["detail"]["job"])]
     return ["entries are enumerated exhaustively: rerun ./check C18"]
